@@ -12,6 +12,8 @@ import (
 	"sort"
 	"strconv"
 	"strings"
+	"sync"
+	"syscall"
 	"testing"
 	"time"
 )
@@ -27,12 +29,68 @@ type vfRelayRig struct {
 	toClient  *vfSink // relay -> client
 	nc, ns    int     // token counters
 	idn       int64
+	// relay inside tmux (normal mode): while a transfer is on, server output goes to the client's tty directly
+	// (toBypass) instead of the pane (toClient)
+	tmux     bool
+	toBypass *vfSink
+	curSink  byte // sink expected for the server tokens generated next: 'p' pane, 'b' bypass
 }
 
+var vfTmuxRelayMu sync.Mutex
+
 func vfNewRelayRig(c *vfCtx) *vfRelayRig {
-	r := &vfRelayRig{c: c, clientIn: vfNewWire("rci"), serverOut: vfNewWire("rso"), toServer: vfNewSink(), toClient: vfNewSink()}
+	r := &vfRelayRig{c: c, clientIn: vfNewWire("rci"), serverOut: vfNewWire("rso"), toServer: vfNewSink(), toClient: vfNewSink(), curSink: 'p'}
+	if os.Getenv("VF_TMUXRELAY") != "" {
+		// the fake tmux answers the client-tty question with a FIFO of this rig; the environment is process-wide,
+		// so relays are created one at a time
+		fifo := filepath.Join(c.Dir, "client-tty")
+		if err := syscall.Mkfifo(fifo, 0600); err == nil {
+			r.tmux = true
+			r.toBypass = vfNewSink()
+			go func() {
+				f, err := os.OpenFile(fifo, os.O_RDONLY, 0)
+				if err != nil {
+					return
+				}
+				buf := make([]byte, 32*1024)
+				for {
+					n, err := f.Read(buf)
+					if n > 0 {
+						r.toBypass.Write(buf[:n])
+					}
+					if err != nil {
+						return
+					}
+				}
+			}()
+			vfTmuxRelayMu.Lock()
+			os.Setenv("TMUX", "/tmp/vf-fake-tmux,1,0")
+			os.Setenv("VF_TMUX_REPLY", fifo+":0:80")
+			r.relay = NewTrzszRelay(r.clientIn, r.toClient, r.toServer, r.serverOut, TrzszOptions{})
+			os.Unsetenv("TMUX")
+			vfTmuxRelayMu.Unlock()
+			if r.relay.tmuxMode != tmuxNormalMode {
+				c.Inconc("the relay did not come up in tmux normal mode (mode %v)", r.relay.tmuxMode)
+			}
+			return r
+		}
+	}
 	r.relay = NewTrzszRelay(r.clientIn, r.toClient, r.toServer, r.serverOut, TrzszOptions{})
 	return r
+}
+
+// sOut is everything the relay sent towards the client since the given offsets, pane then bypass.
+func (r *vfRelayRig) sWait(s0, b0 int, needle []byte, d time.Duration) bool {
+	deadline := time.Now().Add(d)
+	for {
+		if bytes.Contains(r.toClient.Bytes()[s0:], needle) || r.tmux && bytes.Contains(r.toBypass.Bytes()[b0:], needle) {
+			return true
+		}
+		if time.Now().After(deadline) {
+			return false
+		}
+		time.Sleep(200 * time.Microsecond)
+	}
 }
 
 func (r *vfRelayRig) Close() {
@@ -44,6 +102,7 @@ type vfTok struct {
 	id    int
 	class string // must, junk (on the consumed line: vanishes), race (a prefix may pass before the rewritten line)
 	after bool   // must appear after the special line of its direction
+	sink  byte   // server tokens with the relay in tmux: 'p' pane, 'b' bypass
 }
 
 func (r *vfRelayRig) ctoks(n int, class string, after bool, acc *[]vfTok) []byte {
@@ -51,7 +110,7 @@ func (r *vfRelayRig) ctoks(n int, class string, after bool, acc *[]vfTok) []byte
 	for i := 0; i < n; i++ {
 		r.nc++
 		b = append(b, fmt.Sprintf("<c%07d>", r.nc)...)
-		*acc = append(*acc, vfTok{r.nc, class, after})
+		*acc = append(*acc, vfTok{r.nc, class, after, 0})
 	}
 	return b
 }
@@ -61,7 +120,7 @@ func (r *vfRelayRig) stoks(n int, class string, after bool, acc *[]vfTok) []byte
 	for i := 0; i < n; i++ {
 		r.ns++
 		b = append(b, fmt.Sprintf("<s%07d>", r.ns)...)
-		*acc = append(*acc, vfTok{r.ns, class, after})
+		*acc = append(*acc, vfTok{r.ns, class, after, r.curSink})
 	}
 	return b
 }
@@ -226,6 +285,11 @@ func (r *vfRelayRig) episode(kind string, rnd *vfRand) bool {
 	c := r.c
 	var ct, st []vfTok
 	c0, s0 := r.toServer.Len(), r.toClient.Len()
+	b0 := 0
+	if r.tmux {
+		b0 = r.toBypass.Len()
+	}
+	r.curSink = 'p'
 	pol := func() int { return rnd.Intn(3) }
 	// (a) standby traffic, quiesced
 	pre := r.ctoks(1+rnd.Intn(4), "must", false, &ct)
@@ -297,6 +361,9 @@ func (r *vfRelayRig) episode(kind string, rnd *vfRand) bool {
 		var sb []byte
 		sb = append(sb, r.stoks(rnd.Intn(3), "junk", true, &st)...)
 		sb = append(sb, cfgLine...)
+		if kind == "confirm" {
+			r.curSink = 'b' // from the CFG line to the end of the transfer the server's bytes bypass tmux
+		}
 		sb = append(sb, r.stoks(rnd.Intn(4), "must", true, &st)...)
 		done := make(chan struct{})
 		rnd2 := vfNewRand("c13-post", rnd.U64()) // the concurrent writer has its own generator
@@ -313,7 +380,7 @@ func (r *vfRelayRig) episode(kind string, rnd *vfRand) bool {
 			wantS = append(wantS, "#FAIL:")
 			wantC = append(wantC, "#FAIL:")
 		}
-		if !vfWaitSink(r.toClient, s0, []byte(wantS[len(wantS)-1]), 10*time.Second) {
+		if !r.sWait(s0, b0, []byte(wantS[len(wantS)-1]), 10*time.Second) {
 			c.Slow("c13-cfg-not-forwarded", "%s: no %s line reached the client side within 10 s", kind, wantS[len(wantS)-1])
 			return false
 		}
@@ -325,7 +392,7 @@ func (r *vfRelayRig) episode(kind string, rnd *vfRand) bool {
 	stail := r.stoks(1+rnd.Intn(3), "must", true, &st)
 	vfWriteSplit(r.clientIn, tail, pol(), rnd)
 	vfWriteSplit(r.serverOut, stail, pol(), rnd)
-	if !vfWaitSink(r.toServer, c0, tail[len(tail)-10:], 10*time.Second) || !vfWaitSink(r.toClient, s0, stail[len(stail)-10:], 10*time.Second) {
+	if !vfWaitSink(r.toServer, c0, tail[len(tail)-10:], 10*time.Second) || !r.sWait(s0, b0, stail[len(stail)-10:], 10*time.Second) {
 		gotC, gotS := r.toServer.Bytes()[c0:], r.toClient.Bytes()[s0:]
 		c.Slow("c13-lost:tail", "%s: the last tokens did not come out within 10 s (status %d); to-server tail %q; to-client tail %q", kind, r.relay.relayStatus.Load(), vfHead(gotC[vfMax(0, len(gotC)-60):], 60), vfHead(gotS[vfMax(0, len(gotS)-60):], 60))
 		return false
@@ -346,10 +413,41 @@ func (r *vfRelayRig) episode(kind string, rnd *vfRand) bool {
 		c.Viol("c13-not-standby-after:"+kind, "relay status is %d after the %s episode ended", stt, kind)
 		return false
 	}
+	r.curSink = 'p'
 	outC := r.toServer.Bytes()[c0:]
 	outS := r.toClient.Bytes()[s0:]
 	if !vfCheckDirection(c, "client->server", outC, 'c', ct, wantC, kind) {
 		return false
+	}
+	if r.tmux {
+		// two sinks: every server token has one it belongs to (pane before the CFG line of a confirmed handshake and
+		// after the end of the transfer, the client's tty in between); each sink is checked on its own tokens
+		outB := r.toBypass.Bytes()[b0:]
+		var stP, stB []vfTok
+		for _, t := range st {
+			if t.sink == 'b' {
+				stB = append(stB, t)
+			} else {
+				stP = append(stP, t)
+			}
+		}
+		var wantP, wantB []string
+		for _, w := range wantS {
+			// the CFG line travels on the bypass; a FAIL line written by the relay itself may take either way
+			if w == "#CFG:" || w == "#FAIL:" && bytes.Contains(outB, []byte("#FAIL:")) {
+				wantB = append(wantB, w)
+			} else {
+				wantP = append(wantP, w)
+			}
+		}
+		if !vfCheckDirection(c, "server->pane", outS, 's', stP, wantP, kind) {
+			return false
+		}
+		if !vfCheckDirection(c, "server->client-tty", outB, 's', stB, wantB, kind) {
+			return false
+		}
+		c.Obs("episodes_tmux_relay_"+kind, 1)
+		return true
 	}
 	if !vfCheckDirection(c, "server->client", outS, 's', st, wantS, kind) {
 		return false
@@ -598,7 +696,7 @@ func TestVF_C13(t *testing.T) {
 			var hist []string
 			for e := 0; e < episodes; e++ {
 				kind := kinds[(e+c.R.Intn(len(kinds)))%len(kinds)]
-				if e%5 == 3 {
+				if e%5 == 3 && !rig.tmux {
 					kind = "tunnel"
 				}
 				hist = append(hist, kind)
